@@ -56,7 +56,8 @@ Definition final_view (a : ain) : view :=
 Definition continues (o : ropt) (k : Z) (a : ain) : bool :=
   match first_some (a_after a) with
   | Some _ => false
-  | None => negb (hard_stop o k a) && fst (need_retry (ro_conds o) (view_of (a_out a)))
+  | None => negb (hard_stop o k a) && fst (need_retry (ro_conds o) (view_of (a_out a))) &&
+            negb (a_wait_cancel a)
   end.
 
 Fixpoint spec_attempts (o : ropt) (k : Z) (ins : list ain) : nat :=
@@ -113,17 +114,20 @@ Qed.
 Lemma continues_iff o k a :
   continues o k a = true <->
   first_some (a_after a) = None /\ is_cancelled (a_out a) = false /\
-  (ro_max o < 0 \/ k < ro_max o)%Z /\ retry_wanted (ro_conds o) (view_of (a_out a)).
+  (ro_max o < 0 \/ k < ro_max o)%Z /\ retry_wanted (ro_conds o) (view_of (a_out a)) /\
+  a_wait_cancel a = false.
 Proof.
   unfold continues, hard_stop. rewrite <- need_retry_iff.
   destruct (first_some (a_after a)); [split; [discriminate|intros (H & _); discriminate]|].
   destruct (is_cancelled (a_out a)); cbn [orb negb andb].
   - split; [discriminate|intros (_ & H & _); discriminate].
-  - destruct (fst (need_retry (ro_conds o) (view_of (a_out a)))).
-    + rewrite andb_true_r. split.
-      * intros H. repeat split; try reflexivity. lia.
-      * intros (_ & _ & H & _). lia.
-    + rewrite andb_false_r. split; [discriminate|intros (_ & _ & _ & H); discriminate].
+  - destruct (fst (need_retry (ro_conds o) (view_of (a_out a)))), (a_wait_cancel a); cbn [negb andb];
+    rewrite ?andb_true_r, ?andb_false_r; split; try discriminate.
+    + intros (_ & _ & _ & _ & H). discriminate.
+    + intros H. repeat split; try reflexivity. lia.
+    + intros (_ & _ & H & _). lia.
+    + intros (_ & _ & _ & H & _). discriminate.
+    + intros (_ & _ & _ & H & _). discriminate.
 Qed.
 
 (* ---------- arithmetic of the attempt count ---------- *)
@@ -188,10 +192,13 @@ Lemma do_loop_step o k s a rest :
         else
           let s3 := set_attempt s2 (r_attempt s2 + 1) in
           let s4 := run_hooks (ro_hooks o) s3 in
-          cons_wire w (add_calls ccalls
-                                 (map (fun h => mkCall (hk_id h) (r_attempt s3) v) (rev (ro_hooks o)))
-                                 [mkCall (ro_interval o) (r_attempt s4) v]
-                                 (do_loop detect c (Some o) (k + 1) s4 rest))
+          let hcalls := map (fun h => mkCall (hk_id h) (r_attempt s3) v) (rev (ro_hooks o)) in
+          let icall := mkCall (ro_interval o) (r_attempt s4) v in
+          if a_wait_cancel a then
+            add_calls ccalls hcalls [icall]
+              (mkResult [w] [] [] [] (mkView (v_status v) (Some 3%Z)) (r_attempt s4) EndNormal)
+          else
+            cons_wire w (add_calls ccalls hcalls [icall] (do_loop detect c (Some o) (k + 1) s4 rest))
   end.
 Proof.
   unfold do_loop. cbn [do_loop_gen]. unfold final_view, hard_stop, judged_view. cbn [andb].
@@ -199,7 +206,7 @@ Proof.
   cbv zeta.
   destruct (is_cancelled (a_out a) || _)%bool; [reflexivity|].
   destruct (need_retry (ro_conds o) (view_of (a_out a))) as [need called]. cbn [fst snd].
-  destruct need; reflexivity.
+  destruct need; [|reflexivity]. cbn [negb]. destruct (a_wait_cancel a); reflexivity.
 Qed.
 
 Lemma do_loop_none k s a rest :
@@ -228,7 +235,8 @@ Proof.
   rewrite s2_attempt, Hk.
   destruct (first_some (a_after a)); [reflexivity|].
   destruct (hard_stop o k a); cbn [negb andb]; [reflexivity|].
-  destruct (fst (need_retry (ro_conds o) (view_of (a_out a)))); cbn [negb]; simp_res; [|reflexivity].
+  destruct (fst (need_retry (ro_conds o) (view_of (a_out a)))); cbn [negb andb]; simp_res; [|reflexivity].
+  destruct (a_wait_cancel a); cbn [negb]; simp_res; [reflexivity|].
   cbn [length]. f_equal. apply IH. apply s4_attempt, Hh.
 Qed.
 
@@ -259,11 +267,11 @@ Qed.
 (* a negative count retries without bound: n failing outcomes give n attempts, for every n *)
 Theorem attempts_unbounded_when_negative o s n :
   hooks_keep_attempt (ro_hooks o) -> r_attempt s = 0%Z -> (ro_max o < 0)%Z -> ro_conds o = [] ->
-  length (res_wires (do_loop detect c (Some o) 0 s (repeat (mkAin (OErr 1 false) []) n))) = n.
+  length (res_wires (do_loop detect c (Some o) 0 s (repeat (mkAin (OErr 1 false) [] false) n))) = n.
 Proof.
   intros Hh Hs HN Hc. rewrite (do_loop_attempts o Hh _ 0%Z s Hs).
   generalize 0%Z. induction n as [|n IH]; intros k; cbn [repeat spec_attempts]; [reflexivity|].
-  assert (E : continues o k (mkAin (OErr 1 false) []) = true).
+  assert (E : continues o k (mkAin (OErr 1 false) [] false) = true).
   { apply continues_iff. cbn. rewrite Hc. repeat split; try reflexivity; [left; exact HN|discriminate]. }
   rewrite E, IH. reflexivity.
 Qed.
@@ -271,7 +279,7 @@ Qed.
 (* hooks / interval: once per retry *)
 Definition retry_indices (n : nat) : list nat := seq 0 (pred n).
 
-Definition dflt_ain : ain := mkAin (OStatus 0) [].
+Definition dflt_ain : ain := mkAin (OStatus 0) [] false.
 
 Definition hook_calls_of (o : ropt) (k : Z) (ins : list ain) (j : nat) : list call :=
   map (fun h => mkCall (hk_id h) (k + Z.of_nat (S j)) (view_of (a_out (nth j ins dflt_ain))))
@@ -290,14 +298,16 @@ Proof. rewrite <- seq_shift, map_map. reflexivity. Qed.
 
 Lemma do_loop_hooks o : hooks_keep_attempt (ro_hooks o) ->
   forall ins k s, r_attempt s = k ->
+  Forall (fun a => a_wait_cancel a = false) ins ->
   res_end (do_loop detect c (Some o) k s ins) = EndNormal ->
   res_hooks (do_loop detect c (Some o) k s ins) =
     flat_map (hook_calls_of o k ins) (retry_indices (length (res_wires (do_loop detect c (Some o) k s ins)))) /\
   res_intervals (do_loop detect c (Some o) k s ins) =
     map (interval_call_of o k ins) (retry_indices (length (res_wires (do_loop detect c (Some o) k s ins)))).
 Proof.
-  intros Hh. unfold retry_indices. induction ins as [|a rest IH]; intros k s Hk; [intros _; split; reflexivity|].
-  rewrite do_loop_step. cbv zeta.
+  intros Hh. unfold retry_indices. induction ins as [|a rest IH]; intros k s Hk Hnw; [intros _; split; reflexivity|].
+  pose proof (Forall_inv Hnw) as Hwa. pose proof (Forall_inv_tail Hnw) as Hnw'. cbv beta in Hwa.
+  rewrite do_loop_step. cbv zeta. rewrite Hwa.
   destruct (first_some (a_after a)); [intros _; split; reflexivity|].
   destruct (hard_stop o _ a); [intros _; split; reflexivity|].
   destruct (fst (need_retry (ro_conds o) (view_of (a_out a)))); cbn [negb]; simp_res; [|intros _; split; reflexivity].
@@ -308,7 +318,7 @@ Proof.
   destruct rest as [|a1 rest'].
   { (* the script ended on a retry decision: excluded by the hypothesis *)
     unfold do_loop in Hend. cbn [do_loop_gen res_end] in Hend. discriminate Hend. }
-  destruct (IH (k + 1)%Z _ Hk4 Hend) as [IH1 IH2]. rewrite IH1, IH2.
+  destruct (IH (k + 1)%Z _ Hk4 Hnw' Hend) as [IH1 IH2]. rewrite IH1, IH2.
   rewrite (do_loop_attempts o Hh (a1 :: rest') (k + 1)%Z _ Hk4).
   rewrite Hk4. cbn [set_attempt r_attempt]. rewrite s2_attempt, Hk.
   pose proof (spec_attempts_pos o a1 rest' (k + 1)) as Hp.
@@ -330,6 +340,7 @@ Qed.
    ([res_end r = EndNormal]: the outcome list did not run out in the middle of a retry) *)
 Theorem hooks_once_per_retry o s ins :
   hooks_keep_attempt (ro_hooks o) -> r_attempt s = 0%Z ->
+  Forall (fun a => a_wait_cancel a = false) ins ->
   let r := do_loop detect c (Some o) 0 s ins in
   res_end r = EndNormal ->
   res_hooks r =
@@ -337,32 +348,35 @@ Theorem hooks_once_per_retry o s ins :
                            (rev (ro_hooks o)))
              (seq 0 (pred (length (res_wires r)))).
 Proof.
-  intros Hh Hs r Hend. destruct (do_loop_hooks o Hh ins 0%Z s Hs Hend) as [H _]. exact H.
+  intros Hh Hs Hnw r Hend. destruct (do_loop_hooks o Hh ins 0%Z s Hs Hnw Hend) as [H _]. exact H.
 Qed.
 
 Theorem interval_once_per_retry o s ins :
   hooks_keep_attempt (ro_hooks o) -> r_attempt s = 0%Z ->
+  Forall (fun a => a_wait_cancel a = false) ins ->
   let r := do_loop detect c (Some o) 0 s ins in
   res_end r = EndNormal ->
   res_intervals r =
     map (fun j => mkCall (ro_interval o) (Z.of_nat (S j)) (view_of (a_out (nth j ins dflt_ain))))
         (seq 0 (pred (length (res_wires r)))).
 Proof.
-  intros Hh Hs r Hend. destruct (do_loop_hooks o Hh ins 0%Z s Hs Hend) as [_ H]. exact H.
+  intros Hh Hs Hnw r Hend. destruct (do_loop_hooks o Hh ins 0%Z s Hs Hnw Hend) as [_ H]. exact H.
 Qed.
 
 (* ---------- the final result ---------- *)
 
 Lemma do_loop_final o : hooks_keep_attempt (ro_hooks o) ->
   forall ins k s, r_attempt s = k ->
+  Forall (fun a => a_wait_cancel a = false) ins ->
   let r := do_loop detect c (Some o) k s ins in
   res_end r = EndNormal ->
   (1 <= length (res_wires r))%nat /\
   (exists a, nth_error ins (pred (length (res_wires r))) = Some a /\ res_final r = final_view a) /\
   res_attempt r = (k + Z.of_nat (pred (length (res_wires r))))%Z.
 Proof.
-  intros Hh. induction ins as [|a rest IH]; intros k s Hk; cbv zeta; [cbn; discriminate|].
-  rewrite do_loop_step. cbv zeta.
+  intros Hh. induction ins as [|a rest IH]; intros k s Hk Hnw; cbv zeta; [cbn; discriminate|].
+  pose proof (Forall_inv Hnw) as Hwa. pose proof (Forall_inv_tail Hnw) as Hnw'. cbv beta in Hwa.
+  rewrite do_loop_step. cbv zeta. rewrite Hwa.
   assert (Hfv : first_some (a_after a) = None -> final_view a = view_of (a_out a)).
   { intros E. unfold final_view. rewrite E. reflexivity. }
   destruct (first_some (a_after a)) eqn:Ea.
@@ -379,7 +393,7 @@ Proof.
   assert (Hk4 : r_attempt (run_hooks (ro_hooks o)
               (set_attempt (after_send (prepare detect c s)) (r_attempt (after_send (prepare detect c s)) + 1)))
               = (k + 1)%Z) by (rewrite s4_attempt by exact Hh; rewrite s2_attempt; lia).
-  destruct (IH (k + 1)%Z _ Hk4 Hend) as (H1 & (a' & Hn & Hf) & H3).
+  destruct (IH (k + 1)%Z _ Hk4 Hnw' Hend) as (H1 & (a' & Hn & Hf) & H3).
   cbn [length pred]. split; [lia|]. split.
   - exists a'. split; [|exact Hf].
     destruct (length (res_wires (do_loop detect c (Some o) (k + 1) _ rest))) as [|m]; [lia|].
@@ -389,13 +403,14 @@ Qed.
 
 Theorem final_is_last_attempt o s ins :
   hooks_keep_attempt (ro_hooks o) -> r_attempt s = 0%Z ->
+  Forall (fun a => a_wait_cancel a = false) ins ->
   let r := do_loop detect c (Some o) 0 s ins in
   res_end r = EndNormal ->
   exists a, nth_error ins (pred (length (res_wires r))) = Some a /\
             res_final r = final_view a /\
             res_attempt r = Z.of_nat (pred (length (res_wires r))).
 Proof.
-  intros Hh Hs r Hend. destruct (do_loop_final o Hh ins 0%Z s Hs Hend) as (_ & (a & Hn & Hf) & H3).
+  intros Hh Hs Hnw r Hend. destruct (do_loop_final o Hh ins 0%Z s Hs Hnw Hend) as (_ & (a & Hn & Hf) & H3).
   exists a. repeat split; [exact Hn|exact Hf|]. fold r in H3. rewrite H3. lia.
 Qed.
 
@@ -408,7 +423,32 @@ Proof.
   rewrite do_loop_step. cbv zeta.
   destruct (first_some (a_after a)); [left; reflexivity|].
   destruct (hard_stop o _ a); [left; reflexivity|].
-  destruct (fst (need_retry (ro_conds o) (view_of (a_out a)))); cbn [negb]; simp_res; [apply IH|left; reflexivity].
+  destruct (fst (need_retry (ro_conds o) (view_of (a_out a)))); cbn [negb]; simp_res; [|left; reflexivity].
+  destruct (a_wait_cancel a); simp_res; [left; reflexivity|apply IH].
+Qed.
+
+(* the context ends while the retry is being prepared (hooks, interval function, the wait - also a
+   zero-length one): no further attempt; the call reports the last attempt's response with the
+   context's error, the hooks and the interval function of that retry have run *)
+Theorem wait_cancel_ends_the_retries o k s a rest :
+  a_wait_cancel a = true ->
+  length (res_wires (do_loop detect c (Some o) k s (a :: rest))) = 1%nat /\
+  (first_some (a_after a) = None -> hard_stop o (r_attempt (after_send (prepare detect c s))) a = false ->
+   fst (need_retry (ro_conds o) (view_of (a_out a))) = true ->
+   res_final (do_loop detect c (Some o) k s (a :: rest)) = mkView (v_status (view_of (a_out a))) (Some 3%Z) /\
+   res_end (do_loop detect c (Some o) k s (a :: rest)) = EndNormal /\
+   length (res_hooks (do_loop detect c (Some o) k s (a :: rest))) = length (ro_hooks o) /\
+   length (res_intervals (do_loop detect c (Some o) k s (a :: rest))) = 1%nat).
+Proof.
+  intros Hw. rewrite do_loop_step. cbv zeta. rewrite Hw.
+  destruct (first_some (a_after a)).
+  { split; [reflexivity|intros H; discriminate H]. }
+  destruct (hard_stop o _ a).
+  { split; [reflexivity|intros _ H; discriminate H]. }
+  destruct (fst (need_retry (ro_conds o) (view_of (a_out a)))); cbn [negb]; simp_res.
+  - split; [reflexivity|]. intros _ _ _. repeat split.
+    + rewrite app_nil_r, map_length, rev_length. reflexivity.
+  - split; [reflexivity|intros _ _ H; discriminate H].
 Qed.
 
 (* ---------- every attempt sends the same request ---------- *)
@@ -450,6 +490,7 @@ Proof.
   destruct (hard_stop o _ a); [simp_res; constructor; [exact Hw|constructor]|].
   destruct (fst (need_retry (ro_conds o) (view_of (a_out a)))); cbn [negb]; simp_res;
     [|constructor; [exact Hw|constructor]].
+  destruct (a_wait_cancel a); simp_res; [constructor; [exact Hw|constructor]|].
   constructor; [exact Hw|].
   rewrite (run_hooks_silent _ _ Hsil).
   assert (Hnr : r_getbody (prepare detect c s) <> GBReader).
@@ -479,6 +520,7 @@ Proof.
   destruct (hard_stop o _ a); [simp_res; constructor; [apply wire_same_refl|constructor]|].
   destruct (fst (need_retry (ro_conds o) (view_of (a_out a)))); cbn [negb]; simp_res;
     [|constructor; [apply wire_same_refl|constructor]].
+  destruct (a_wait_cancel a); simp_res; [constructor; [apply wire_same_refl|constructor]|].
   constructor; [apply wire_same_refl|].
   rewrite (run_hooks_silent _ _ Hsil). rewrite (after_send_not_reader _ HT).
   assert (Ha : r_attempt T = r_attempt s) by apply prepare_attempt.
